@@ -139,6 +139,14 @@ class Da:
         return 'x'
 
 
+class OpenedFile:
+    def __init__(self, args, kwargs):
+        self.args, self.kwargs = args, kwargs
+
+    def __repr__(self):
+        return f'<file opened by the package: open{tuple(self.args)!r}>'
+
+
 class XyeModel(Model):
     def __init__(self):
         super().__init__()
@@ -158,7 +166,14 @@ class XyeModel(Model):
             return Table(list(key) if isinstance(key, tuple) else [key], 0)
         raise AnalysisError(f'subscript of {path} at {interp.where(node)}')
 
+    def _isinstance(self, interp, x, t, node):
+        if isinstance(x, OpenedFile):
+            return False  # neither a str nor a path (the only classes io/xye.py asks about)
+        return super()._isinstance(interp, x, t, node)
+
     def call_ext(self, interp, path, args, kwargs, node):
+        if path == 'builtins.open':
+            return OpenedFile(args, dict(kwargs))  # a file object the package opened itself (not the target it was given)
         if path == 'numpy.savetxt':
             self.saves.append((args, dict(kwargs), interp.where(node)))
             return None
@@ -283,7 +298,7 @@ def run(tier: str) -> Run:
     n_cfg = 0
     fails = {'r1': {}, 'r2': {}, 'r3': {}, 'r5': {}}
     for has_var, ndim, masked, cset, edges_on, coord_arg, header in itertools.product(
-            (True, False), (1, 2, 0), (False, True), coord_sets, (False, True), (None, 'a'), ('default', 'USER TEXT')):
+            (True, False), (1, 2, 0), (False, True), coord_sets, (False, True, 'other'), (None, 'a'), ('default', 'USER TEXT')):
         coords = tuple(n for n, _ in cset)
         aligned = dict(cset)
         if coord_arg is not None and coord_arg not in coords:
@@ -297,10 +312,16 @@ def run(tier: str) -> Run:
             sel = 'x'
         else:
             sel = None
-        edges = {sel} if (edges_on and sel is not None) else set()
+        if edges_on == 'other':
+            # bin edges on a coordinate that is NOT the one saved: the table holds points, nothing is lost
+            edges = {c for c in coords if c != sel}
+            if sel is None or not edges:
+                continue
+        else:
+            edges = {sel} if (edges_on and sel is not None) else set()
         if edges_on and sel is None:
             continue
-        refuse = (not has_var) or ndim != 1 or masked or not coords or sel is None or bool(edges)
+        refuse = (not has_var) or ndim != 1 or masked or not coords or sel is None or sel in edges
         if tier == 'quick' and header == 'USER TEXT' and refuse:
             continue
         n_cfg += 1
@@ -415,6 +436,10 @@ def run(tier: str) -> Run:
                     load_problems.setdefault('load columns', 'loadtxt is not called')
                     continue
                 load_kwargs = model.loads[-1][1]
+                target = model.loads[-1][0][0] if model.loads[-1][0] else load_kwargs.get('fname')
+                if target != 'file.xye':
+                    # numpy decides from the target how to read it (compression by suffix, encoding), as savetxt did when writing
+                    load_problems.setdefault('load columns', f'numpy.loadtxt is handed {target!r} instead of the target given to load_xye')
                 da = o.value
                 data = da.members.get('data_var')
                 coords = da.members.get('coords')
